@@ -392,6 +392,14 @@ func (c *checker) endToEnd() {
 		return
 	}
 	defer pb.Stop()
+	// proxy C: verbose logging on (a configuration, not an input: the header must not depend on it; after seeded change C01-M,
+	// where the hex dump of the hello in the verbose log cut the record that is fingerprinted afterwards)
+	pc, err := rig.StartProxy(be.URL, rig.ProxyOpts{Args: []string{"-verbose"}})
+	if err != nil {
+		run.Inconclusive("cannot start proxy C: %v", err)
+		return
+	}
+	defer pc.Stop()
 
 	n := run.Pick(300, 5000)
 	sem := make(chan struct{}, 24)
@@ -402,6 +410,11 @@ func (c *checker) endToEnd() {
 		go func(i int) {
 			defer wg.Done()
 			defer func() { <-sem }()
+			if i%5 == 4 {
+				run.Add("e2e_connections_to_the_proxy_with_verbose_logging", 1)
+				c.oneConn(i, be, pc, false)
+				return
+			}
 			c.oneConn(i, be, []*rig.Proxy{pa, pb}[i%2], i%2 == 1)
 		}(i)
 	}
